@@ -14,7 +14,8 @@ from ..msggen import NBUILTIN, Cls, Elem, Field, Schema, enc_varint
 
 IMPORTS = ("Model.Types Model.Object Model.Eq Model.Encode Model.Decode Model.Canon Model.WellFormed Model.C17Typed "
            "gen.Tables")
-EXTRA_TARGETS = ["Model/Canon.vo", "Model/Decode.vo", "Model/C17Typed.vo"]
+GAP_IMPORTS = IMPORTS + " Model.C17Wire Model.C17GapDefs Model.C17GapCv"
+EXTRA_TARGETS = ["Model/Canon.vo", "Model/Decode.vo", "Model/C17Typed.vo", "Model/C17GapCv.vo", "Proofs/C17GapCvP.vo"]
 
 TRUSTED = [
     "Coq 8.16.1 kernel and vm_compute (no native_compute); full .vo build via coq_makefile",
@@ -31,6 +32,10 @@ TRUSTED = [
     "float32 conversion (Model/Float.v d2f/f2d) is validated by the correspondence; the one fact the re-encodability theorem uses about it "
     "(pack(unpack(w)) does not overflow) is proved for all patterns in Proofs/C17FloatP.v",
     "oracle for agreement records only: google.protobuf 7.x (upb) classes built from an in-memory FileDescriptorProto",
+    "gap stage: coq/Model/C17GapDefs.v (kept, unk_of: which records a class keeps) is evaluated through coq/Model/C17GapCv.v; its unk_fn is "
+    "PROVED to compute the relation unk_of (C17_unk_fn_sound, with C17_unk_of_unique), so it adds nothing to the trusted base; the Python "
+    "reading py_keeps of 'the class keeps this record' (encoding guide's wire type per declared type, written a second time) is trusted as "
+    "the reading of the property text",
 ]
 ASSUMPTIONS = [
     "Python int is Z; str is its UTF-8 bytes; float is its binary64 pattern; aware datetimes are microseconds since the epoch",
@@ -42,7 +47,11 @@ RULE = ("valid encodings bytes(m) of msggen messages (systematic kind x cardinal
         "(exhaustive per message up to a size budget, sampled above it) x single-byte corruption of every tag byte and length byte "
         "(top level and one level of nesting) x all 8 wire-type substitutions on every top-level record (+ first nested level) "
         "+ group records and mismatching records spliced between fields + random byte strings + the regression corpus of the six "
-        "former defects. non-trivial = input with at least one complete record; distinct = distinct (class, input bytes)")
+        "former defects. non-trivial = input with at least one complete record; distinct = distinct (class, input bytes). "
+        "GAP STAGE on the same inputs: every input additionally framed as varint(len) ++ input ++ rest (rest = nothing / complete records / "
+        "incomplete bytes / another frame / garbage; prefix canonical or padded) for load(SIZE_DELIMITED); every accepted input additionally "
+        "parsed into a message already holding 1-3 foreign records; one complete record per (class, field, wire type); tag-level faults "
+        "(field number 0, wire types 4 / 6 / 7, tag cut, tag of more than ten bytes) appended to accepted inputs")
 
 SPEC_INVALID_MUST_RAISE = True
 
@@ -551,14 +560,124 @@ def ref_accepts(Ref, bs):
 
 
 # --------------------------------------------------------------------------------------
+# gap stage: the specification-side vocabulary of the sixth batch (Model/C17GapDefs.v kept / unk_of, evaluated through
+# Model/C17GapCv.v whose unk_fn is PROVED to compute unk_of: C17_unk_fn_sound) and the oracles of C17_unknown_exact[_into],
+# C17_entry_points_agree / C17_delimited_accept_iff and C17_bad_tag_class / C17_cut_tag_class / C17_tag_error_class
+# --------------------------------------------------------------------------------------
+# the property text: "a record whose wire type cannot belong to its field's declared type ... is kept verbatim as unknown";
+# the protobuf encoding guide's table of wire types per declared type, written out here a second time on purpose
+KEEP_VARINT = {"int32", "int64", "uint32", "uint64", "sint32", "sint64", "bool", "enum"}
+KEEP_I32 = {"fixed32", "sfixed32", "float"}
+KEEP_I64 = {"fixed64", "sfixed64", "double"}
+KEEP_LEN = {"string", "bytes", "message", "map"}
+
+
+def py_keeps(c, num, wt):
+    """independent reading of 'class c keeps a complete record (num, wt) verbatim': its number is declared by no field, or it is a
+    group, or its wire type is not one the declared type can arrive with (the natural one; LEN for a repeated packable scalar)"""
+    f = None
+    for g in c.fields:
+        if g.number == num:
+            f = g
+    if f is None or wt == 3:
+        return True
+    pt = f.proto_type
+    if pt in KEEP_VARINT:
+        natural = 0
+    elif pt in KEEP_I32:
+        natural = 5
+    elif pt in KEEP_I64:
+        natural = 1
+    elif pt in KEEP_LEN:
+        natural = 2
+    else:
+        raise ValueError(f"declared type {pt!r} not in the encoding guide's table")
+    if wt == natural:
+        return False
+    if wt == 2 and f.card == "repeated":       # natural != 2 here: a packed run
+        return False
+    return True
+
+
+def delim_prefix(n, pad):
+    """a VarintRep of n: the canonical one (pad = 0) or one padded with `pad` redundant groups (still <= 10 bytes)"""
+    pre = enc_varint(n)
+    if pad and len(pre) + pad <= 10:
+        pre = pre[:-1] + bytes([pre[-1] | 0x80]) + b"\x80" * (pad - 1) + b"\x00"
+    return pre
+
+
+def run_delim(c, bs, pad, rest):
+    import betterproto as bp
+    frame = delim_prefix(len(bs), pad) + bs + rest
+    st = io.BytesIO(frame)
+    try:
+        m = c.py().load(st, bp.SIZE_DELIMITED)
+        return frame, ("ok", m, st.read())
+    except RecursionError as e:
+        return frame, ("recursion", e, None)
+    except Exception as e:  # noqa
+        return frame, ("raise", e, None)
+
+
+def unknown_number(c, rng=None):
+    used = {f.number for f in c.fields}
+    cands = [n for n in (max(used | {0}) + 1, 15, 16, 2047, 2048, 4001, 536870911) if n not in used]
+    return cands[0] if rng is None else rng.choice(cands)
+
+
+def gen_rest(rng):
+    """what follows the frame in the stream: nothing, complete records, incomplete bytes, another frame, garbage"""
+    r = rng.random()
+    if r < 0.15:
+        return b""
+    if r < 0.35:
+        wt = rng.choice([0, 1, 2, 5])
+        return enc_varint((rng.choice([1, 2, 3, 15, 16, 300]) << 3) | wt) + gen_payload(rng, wt, 1)
+    if r < 0.5:
+        wt = rng.choice([0, 1, 2, 5])
+        full = enc_varint((rng.choice([1, 2, 3, 16]) << 3) | wt) + gen_payload(rng, wt, 1)
+        return full[:rng.randint(1, max(1, len(full) - 1))]
+    if r < 0.6:
+        return rng.choice([b"\x80", b"\xff", b"\x00", b"\x0c", b"\x07", b"\xff" * 11, b"\x80" * 10])
+    if r < 0.7:
+        return b"\x02\x08\x01" + rng.choice([b"", b"\x00", b"\x05\x08"])
+    return bytes(rng.getrandbits(8) for _ in range(rng.randint(1, 7)))
+
+
+def gen_old(rng, c):
+    """records every one of which the class keeps (unknown number / misfit / group): the unknown bytes a message already holds"""
+    out = b""
+    for _ in range(rng.randint(1, 3)):
+        if c.fields and rng.random() < 0.5:
+            out += mismatching_record(rng, rng.choice(c.fields))
+        else:
+            num = unknown_number(c, rng)
+            wt = rng.choice([0, 1, 2, 5, 3])
+            out += gen_group(rng, num) if wt == 3 else enc_varint((num << 3) | wt) + gen_payload(rng, wt, num)
+    return out
+
+
+def default_aux(c):
+    return (0, b"\x08\x80", enc_varint((unknown_number(c) << 3) | 0) + b"\x01")
+
+
+def aux_from_spec(d):
+    return (d["prefix_padding"], bytes.fromhex(d["rest_after_frame"]), bytes.fromhex(d["unknown_bytes_already_held"]))
+
+
+# --------------------------------------------------------------------------------------
 # one input through the implementation + the oracle
 # --------------------------------------------------------------------------------------
-def fail_input(schema, si, ci, fault, bs):
-    return {"schema_index": si, "schema": schema_spec(schema), "class_index": ci, "class": schema.classes[ci].name,
-            "fault": fault, "bytes": bs.hex()}
+def fail_input(schema, si, ci, fault, bs, aux=None):
+    d = {"schema_index": si, "schema": schema_spec(schema), "class_index": ci, "class": schema.classes[ci].name,
+         "fault": fault, "bytes": bs.hex()}
+    if aux is not None:
+        d["aux"] = {"prefix_padding": aux[0], "rest_after_frame": aux[1].hex(), "unknown_bytes_already_held": aux[2].hex()}
+    return d
 
 
-def evaluate(schema, ci, fault, bs, expectation=None, Ref=None):
+def evaluate(schema, ci, fault, bs, expectation=None, Ref=None, aux=None):
     """one input through the three entry points and the oracle.  Pure: returns a dict
        result: None | 'raise' | (snapshot literal, bytes(result) | None);  summary;  problems [(cls, what)];  count key;
        nontrivial;  ref: True/False/None (reference accepted)"""
@@ -566,7 +685,9 @@ def evaluate(schema, ci, fault, bs, expectation=None, Ref=None):
     c = schema.classes[ci]
     outs = run_impl(schema, c, bs)
     kinds = [k for k, _ in outs]
-    res = {"result": None, "summary": "", "problems": [], "count": None, "nontrivial": False, "ref": None}
+    res = {"result": None, "summary": "", "problems": [], "count": None, "nontrivial": False, "ref": None,
+           "gc": {}, "unk": None, "exp_unk": None, "nws": [], "delim": None, "into": None}
+    gc = res["gc"]
     if Ref is not None:
         res["ref"] = ref_accepts(Ref, bs)
     if "recursion" in kinds:
@@ -577,9 +698,34 @@ def evaluate(schema, ci, fault, bs, expectation=None, Ref=None):
         res["problems"].append(("entry-points-disagree", f"parse / FromString / load disagree on raising: {kinds}"))
         res["summary"] = "disagree"
         return res
+    # ---- gap stage (2): the fourth entry point, Cls().load(BytesIO(varint(len(bs)) ++ bs ++ rest), SIZE_DELIMITED)
+    pad, rest, old = aux if aux is not None else default_aux(c)
+    frame, dout = run_delim(c, bs, pad, rest)
+    if dout[0] == "recursion":
+        gc["gap:entry_points: delimited load hit the recursion limit (skipped)"] = 1
+        dout = None
+    elif (dout[0] == "ok") != (kinds[0] == "ok"):
+        res["problems"].append(("entry-points-disagree",
+                                f"parse / FromString / load {'accept' if kinds[0] == 'ok' else 'reject (' + type(outs[0][1]).__name__ + ')'} the input but "
+                                f"load(SIZE_DELIMITED) on prefix ++ input ++ {rest.hex() or '(nothing)'} "
+                                f"{'accepts' if dout[0] == 'ok' else 'rejects (' + type(dout[1]).__name__ + ': ' + str(dout[1])[:80] + ')'}"))
+        dout = None
     sclass, sinfo = spec_class(bs)
     res["count"] = f"{fault.split(':')[0]}|spec-{sclass}|impl-{'ok' if kinds[0] == 'ok' else 'raise'}"
     if kinds[0] == "raise":
+        if dout is not None:
+            names = [type(e).__name__ for _, e in outs]
+            gc["gap:entry_points: all four reject"] = 1
+            if len(set(names)) != 1:
+                gc["gap:entry_points: parse / FromString / load raise different classes"] = 1
+            if lib.exc_kind(outs[0][1]) != lib.exc_kind(dout[1]):
+                gc[f"gap:entry_points: rejected, error KINDS differ at the model's granularity (parse {lib.exc_kind(outs[0][1])}, "
+                   f"delimited {lib.exc_kind(dout[1])}) - C17_entry_points_err_class_refuted"] = 1
+            if type(outs[0][1]) is type(dout[1]):
+                gc["gap:entry_points: rejected, delimited load raises the SAME class as parse"] = 1
+            else:
+                gc[f"gap:entry_points: rejected, classes DIFFER (parse {names[0]}, delimited {type(dout[1]).__name__})"] = 1
+            res["delim"] = (frame, "raise")
         if expectation == "unknown":
             res["problems"].append(("rejects-wellformed", f"well-formed input rejected: {type(outs[0][1]).__name__}: {outs[0][1]}"))
         res["result"] = res["summary"] = "raise"
@@ -601,6 +747,24 @@ def evaluate(schema, ci, fault, bs, expectation=None, Ref=None):
         return res
     if len(set(snaps)) != 1:
         problems.append(("entry-points-disagree", "parse / FromString / load return different messages"))
+    if dout is not None:
+        try:
+            sd = snapshot(schema, dout[1])
+        except msggen.Unmodellable:
+            sd = None
+        okd = True
+        if sd != snaps[0]:
+            okd = False
+            problems.append(("entry-points-disagree", f"load(SIZE_DELIMITED) on prefix ++ input ++ {rest.hex() or '(nothing)'} returns a different "
+                             f"message than parse: {dout[1]!r:.200} vs {m!r:.200}"))
+        if dout[2] != rest:
+            okd = False
+            problems.append(("entry-points-disagree", f"load(SIZE_DELIMITED) left {dout[2].hex() or '(nothing)'} unread; the bytes after the frame "
+                             f"are {rest.hex() or '(nothing)'}"))
+        if okd:
+            gc["gap:entry_points: all four accept, same message, exactly the rest left unread"] = 1
+        if sd is not None:
+            res["delim"] = (frame, (sd, dout[2]))
     if sclass == "invalid":
         problems.append(("accepts-malformed", f"input is not a sequence of complete records ({sinfo}) but parse() returned {m!r:.200}"))
     if expectation == "raise" and sclass != "invalid":
@@ -641,6 +805,38 @@ def evaluate(schema, ci, fault, bs, expectation=None, Ref=None):
         if unk != exp_unknown:
             problems.append(("foreign-record-not-isolated",
                              f"_unknown_fields is {unk.hex()} but the non-fitting / unknown / group records are {exp_unknown.hex()}"))
+        # ---- gap stage (1): C17_unknown_exact / C17_unknown_exact_into on the implementation, against the reading of
+        #      "the class keeps this record" written from the property text (py_keeps); the values go back to the main
+        #      process, which evaluates the specification's kept / unk_of on the same input inside Coq
+        exp2 = b"".join(bs[a:b] for (a, b, num, wt, *_r) in sinfo if py_keeps(c, num, wt))
+        res["unk"], res["exp_unk"] = unk, exp2
+        res["nws"] = sorted({(num << 3) | wt for (_a, _b, num, wt, *_r) in sinfo})
+        gc["gap:unknown_exact: accepted inputs whose _unknown_fields were compared with the property-text reading"] = 1
+        if exp2:
+            gc["gap:unknown_exact: ... of which keep at least one record"] = 1
+        if unk != exp2:
+            problems.append(("foreign-record-not-isolated",
+                             f"_unknown_fields is {unk.hex()} but the records the class keeps (unknown number / wire type not fitting the "
+                             f"declared type / group) are {exp2.hex()}"))
+        try:
+            m0 = c.py().parse(old)
+            old_unk = bytes(object.__getattribute__(m0, "_unknown_fields"))
+            if old_unk != old:
+                problems.append(("foreign-record-not-isolated", f"records {old.hex()} (all foreign to the class) parsed alone leave "
+                                 f"_unknown_fields = {old_unk.hex()}"))
+            m0.parse(bs)
+            into_unk = bytes(object.__getattribute__(m0, "_unknown_fields"))
+            gc["gap:unknown_exact_into: parse into a message already holding unknown bytes, compared"] = 1
+            if into_unk != old_unk + exp2:
+                problems.append(("foreign-record-not-isolated",
+                                 f"parse into a message already holding the unknown bytes {old_unk.hex()}: _unknown_fields is {into_unk.hex()}, "
+                                 f"expected old ++ kept records = {(old_unk + exp2).hex()}"))
+            res["into"] = (old, old_unk, into_unk)
+        except RecursionError:
+            pass
+        except Exception as e:  # noqa
+            problems.append(("foreign-record-not-isolated", f"the input is accepted by Cls().parse but rejected when parsed into a message "
+                             f"already holding the unknown bytes {old.hex()}: {type(e).__name__}: {e}"))
         if foreign:
             keep = bytearray()
             last = 0
@@ -682,22 +878,23 @@ def _worker(span):
         resource.setrlimit(resource.RLIMIT_AS, (4 << 30, 4 << 30))
     except Exception:  # noqa
         pass
-    schemas, cases, refs = _G["schemas"], _G["cases"], _G["refs"]
+    schemas, cases, refs, auxs = _G["schemas"], _G["cases"], _G["refs"], _G.get("auxs")
     out = []
     for i in range(lo, hi):
         si, ci, fault, bs, exp = cases[i]
         try:
             R = refs.get(si)
-            out.append(evaluate(schemas[si], ci, fault, bs, exp, R[ci] if R else None))
+            out.append(evaluate(schemas[si], ci, fault, bs, exp, R[ci] if R else None, auxs[i] if auxs else None))
         except Exception as e:  # noqa
             out.append({"result": None, "summary": "harness", "count": None, "nontrivial": False, "ref": None,
+                        "gc": {}, "unk": None, "exp_unk": None, "nws": [], "delim": None, "into": None,
                         "problems": [("harness", f"harness could not evaluate the input: {type(e).__name__}: {e}")]})
     return out
 
 
-def evaluate_all(ctx, schemas, cases, refs):
+def evaluate_all(ctx, schemas, cases, refs, auxs=None):
     import multiprocessing as mp
-    _G.update(schemas=schemas, cases=cases, refs=refs)
+    _G.update(schemas=schemas, cases=cases, refs=refs, auxs=auxs)
     n = len(cases)
     step = max(50, n // (lib.JOBS * 6) + 1)
     spans = [(lo, min(n, lo + step)) for lo in range(0, n, step)]
@@ -815,6 +1012,190 @@ def source_tie_stage(ctx):
 
 
 # --------------------------------------------------------------------------------------
+# gap stage, main-process part
+# --------------------------------------------------------------------------------------
+def tag_fault_inputs(rng, c, pre):
+    """[(kind, bytes, expected exception class, theorem)] : pre (an accepted run of complete records) followed by a tag-level fault"""
+    out = []
+    nums = [f.number for f in c.fields] + [1, 15, 16, 2047, 2048, 536870911]
+    tail = gen_rest(rng)
+
+    def rep(nw):
+        return delim_prefix(nw, rng.choice([0, 0, 1, 2]))
+    # field number 0 with any wire type; wire types 4 / 6 / 7 with any number: ValueError (C17_bad_tag_class)
+    wt = rng.randrange(8)
+    out.append(("field-number-0", pre + rep(wt) + tail, ValueError, "C17_bad_tag_class"))
+    wt = rng.choice([4, 6, 7])
+    out.append((f"wire-type-{wt}", pre + rep((rng.choice(nums) << 3) | wt) + tail, ValueError, "C17_bad_tag_class"))
+    # an input ending inside a tag: EOFError (C17_cut_tag_class)
+    tag = rep((rng.choice(nums) << 3) | rng.randrange(8))
+    if len(tag) < 2:
+        tag = delim_prefix((rng.choice([16, 300, 2048, 536870911]) << 3) | rng.randrange(8), rng.choice([0, 1]))
+    out.append(("tag-cut", pre + tag[:rng.randint(1, len(tag) - 1)], EOFError, "C17_cut_tag_class"))
+    # a tag of more than ten bytes: ValueError (C17_tag_error_class with load_varint = Err ETooLong)
+    long = bytes(0x80 | rng.getrandbits(7) for _ in range(10)) + rng.choice([b"\x01", b"\x00", b"\x7f", b"\x80\x01", b""])
+    out.append(("tag-eleven-bytes" if len(long) > 10 else "tag-ten-continuation-bytes-then-eof", pre + long + (tail if len(long) > 10 else b""),
+                ValueError, "C17_tag_error_class"))
+    return out
+
+
+def gap_stage(ctx, schemas, cases, evs, auxs, big_keys, prelude, rng):
+    th = ctx.thorough
+    cap_unk, cap_into, cap_delim, n_tag = (6000, 450, 500, 150) if not th else (60000, 10000, 8000, 3000)
+    pairs, meta = [], []          # meta: (what, case index | None, extra)
+
+    def cidx(ci):
+        return f"{NBUILTIN + ci}%nat"
+    acc = [i for i, ev in enumerate(evs) if ev.get("unk") is not None and (cases[i][0], cases[i][1], cases[i][3]) not in big_keys]
+    # (1) unk_of against the real _unknown_fields (and against the property-text reading where the two differ)
+    sel = acc if len(acc) <= cap_unk else sorted(rng.sample(acc, cap_unk))
+    for i in sel:
+        si, ci, fault, bs, _e = cases[i]
+        ev = evs[i]
+        pairs.append((f"cv_unk sc{si} {cidx(ci)} {lib.coq_bytes(bs)}", cb(ev["unk"])))
+        meta.append(("unk", i, None))
+        if ev["exp_unk"] != ev["unk"]:
+            pairs.append((f"cv_unk sc{si} {cidx(ci)} {lib.coq_bytes(bs)}", cb(ev["exp_unk"])))
+            meta.append(("unk-reading", i, None))
+    ctx.count("gap:coq: unk_of evaluated on an accepted input and compared with the real _unknown_fields", len(sel))
+    ctx.count("gap:coq: ... of which the kept bytes are non-empty", sum(1 for i in sel if evs[i]["unk"]))
+    # (1) parse_into on an object already holding unknown bytes: model, specification (old ++ unk_of) and implementation
+    into = [i for i in acc if evs[i].get("into")]
+    into = into if len(into) <= cap_into else sorted(rng.sample(into, cap_into))
+    for i in into:
+        si, ci, fault, bs, _e = cases[i]
+        old, old_unk, into_unk = evs[i]["into"]
+        pairs.append((f"cv_into sc{si} {cidx(ci)} {lib.coq_bytes(old)} {lib.coq_bytes(bs)}", cl([cb(old_unk), cb(into_unk), lib.cbool(True)])))
+        meta.append(("into", i, None))
+        pairs.append((f"(match unk_of_bytes (get_class sc{si} {cidx(ci)}) {lib.coq_bytes(bs)} with Some u => CB ({lib.coq_bytes(old_unk)} ++ u) | None => CN end)",
+                      cb(into_unk)))
+        meta.append(("into-spec", i, None))
+    ctx.count("gap:coq: parse_into (message already holding unknown bytes) and old ++ unk_of compared with the implementation", len(into))
+    # (1) kept, per class: every tag value met on an accepted input + every declared number x wire types 0..5 + undeclared numbers
+    by_cls = {}
+    for i in acc:
+        by_cls.setdefault((cases[i][0], cases[i][1]), set()).update(evs[i]["nws"])
+    nk = 0
+    for si, s in enumerate(schemas):
+        for ci, c in enumerate(s.classes):
+            nws = set(by_cls.get((si, ci), ()))
+            for num in [f.number for f in c.fields] + [unknown_number(c), 536870911]:
+                nws.update((num << 3) | wt for wt in range(6) if wt != 4)
+            nws = sorted(nws)
+            nk += len(nws)
+            try:
+                exp = [py_keeps(c, nw >> 3, nw & 7) for nw in nws]
+            except ValueError as e:
+                ctx.notes.append(f"gap: kept not compared for class {c.name}: {e}")
+                continue
+            pairs.append((f"cv_kept sc{si} {cidx(ci)} [{'; '.join('(%d)%%Z' % nw for nw in nws)}]", cl([lib.cbool(b) for b in exp])))
+            meta.append(("kept", None, (si, ci, nws, exp)))
+    ctx.count("gap:coq: kept evaluated on a (class, tag value) pair and compared with the property-text reading", nk)
+    # (2) load_delimited: model against the implementation (accepted and rejected frames)
+    dl = [i for i, ev in enumerate(evs) if ev.get("delim") and (cases[i][0], cases[i][1], cases[i][3]) not in big_keys]
+    dl_ok = [i for i in dl if evs[i]["delim"][1] != "raise"]
+    dl_no = [i for i in dl if evs[i]["delim"][1] == "raise"]
+    chosen = (dl_ok if len(dl_ok) <= cap_delim // 2 else rng.sample(dl_ok, cap_delim // 2)) + \
+             (dl_no if len(dl_no) <= cap_delim // 2 else rng.sample(dl_no, cap_delim // 2))
+    for i in sorted(chosen):
+        si, ci, fault, bs, _e = cases[i]
+        frame, o = evs[i]["delim"]
+        exp = "(CE EOther)" if o == "raise" else cl([f"cv_of_obj {o[0]}", cb(o[1])])
+        pairs.append((f"cv_delim sc{si} {cidx(ci)} {lib.coq_bytes(frame)}", exp))
+        meta.append(("delim", i, None))
+    ctx.count("gap:coq: load_delimited evaluated on prefix ++ input ++ rest and compared with load(SIZE_DELIMITED)", len(chosen))
+    # (2) + (1) on the implementation only: one complete record per (class, field, wire type) - kept exactly when the reading says so
+    #     (C17_record_unknown_iff / C17_kept_isolated: a kept record is never rejected)
+    nrec = 0
+    for si, s in enumerate(schemas):
+        for ci, c in enumerate(s.classes):
+            for num in [f.number for f in c.fields] + [unknown_number(c)]:
+                for wt in (0, 1, 2, 5, 3):
+                    r = gen_group(rng, num) if wt == 3 else enc_varint((num << 3) | wt) + gen_payload(rng, wt, num)
+                    try:
+                        keeps = py_keeps(c, num, wt)
+                    except ValueError:
+                        continue
+                    nrec += 1
+                    try:
+                        m = c.py().parse(r)
+                        unk = bytes(object.__getattribute__(m, "_unknown_fields"))
+                        if unk != (r if keeps else b""):
+                            ctx.fail("oracle", f"single complete record {r.hex()}: the class {'keeps' if keeps else 'does not keep'} it by the property "
+                                     f"text but _unknown_fields = {unk.hex() or '(empty)'}", cls="foreign-record-not-isolated",
+                                     input=fail_input(s, si, ci, "single-record", r))
+                    except RecursionError:
+                        pass
+                    except Exception as e:  # noqa
+                        if keeps:
+                            ctx.fail("oracle", f"single complete record {r.hex()} that the class keeps is rejected: {type(e).__name__}: {e}",
+                                     cls="rejects-wellformed", input=fail_input(s, si, ci, "single-record", r))
+                        else:
+                            ctx.count("gap:single record of a declared field with a fitting wire type rejected (payload not valid for the type)")
+    ctx.count("gap:single complete records (class x field x wire type) checked for kept <-> lands in _unknown_fields", nrec)
+    # (3) exception class after an accepted run of complete records
+    pres = [i for i in acc if evs[i]["summary"] == "ok" and len(cases[i][3]) <= 400]
+    ntag = 0
+    if pres:
+        for _ in range(n_tag):
+            i = rng.choice(pres)
+            si, ci, _f, pre, _e = cases[i]
+            c = schemas[si].classes[ci]
+            for kind, bs, want, thm in tag_fault_inputs(rng, c, pre):
+                outs = run_impl(schemas[si], c, bs)
+                ntag += 1
+                inp = fail_input(schemas[si], si, ci, "tagfault:" + kind, bs)
+                bad_cls = [(how, k, v) for how, (k, v) in zip(("parse", "FromString", "load"), outs)
+                           if k != "raise" or not isinstance(v, want) or (want is ValueError and isinstance(v, EOFError))]
+                if bad_cls:
+                    how, k, v = bad_cls[0]
+                    got = f"{type(v).__name__}: {v}"[:160] if k != "ok" else f"returns {v!r:.160}"
+                    ctx.fail("oracle", f"{kind} after an accepted run of complete records: {thm} says {want.__name__}; {how} gives {got}",
+                             cls="tag-error-class" if k == "raise" else "accepts-malformed", input=inp)
+                ctx.count(f"gap:exception class: {kind} -> {want.__name__}" + ("" if not bad_cls else " (VIOLATED)"))
+                e0 = outs[0][1] if outs[0][0] == "raise" else None
+                pairs.append((f"cv_err sc{si} {cidx(ci)} {lib.coq_bytes(bs)}", "CN" if e0 is None else lib.ce(lib.exc_kind(e0))))
+                meta.append(("errkind", None, (inp, kind, thm, type(e0).__name__ if e0 is not None else "no exception")))
+    ctx.count("gap:coq: error kind of the model's parse compared with the real exception class (EValue / ETooLong = ValueError, EEof = EOFError)", ntag)
+    # ---- evaluate
+    bad = lib.coq_compare(ctx, "c17gap", GAP_IMPORTS, pairs, chunk=300, prelude=prelude)
+    ctx.count("gap:coq: comparisons evaluated by vm_compute", len(pairs))
+    ctx.cov["disagreements_checked"] = ctx.cov.get("disagreements_checked", 0) + len(pairs)
+    texts = {
+        "unk": "specification unk_of (Model/C17GapDefs.v through unk_fn) and the real _unknown_fields after parse disagree",
+        "unk-reading": "specification unk_of (Model/C17GapDefs.v) and the property-text reading of the kept records disagree",
+        "into": "model parse_into on an object already holding unknown bytes and the implementation disagree on _unknown_fields",
+        "into-spec": "old bytes ++ unk_of (C17_unknown_exact_into) and the real _unknown_fields after parsing into an existing message disagree",
+        "delim": "model load_delimited and Cls().load(stream, SIZE_DELIMITED) disagree (accept / message / unread rest)",
+    }
+    nrep = 0
+    for j in bad:
+        if nrep >= 20:
+            break
+        nrep += 1
+        what, i, extra = meta[j]
+        if what in texts:
+            si, ci, fault, bs, _e = cases[i]
+            ctx.fail("corr", texts[what], cls=None, input=fail_input(schemas[si], si, ci, fault, bs, auxs[i]), implementation=pairs[j][1][:3000])
+        elif what == "kept":
+            si, ci, nws, exp = extra
+            c = schemas[si].classes[ci]
+            # which tag values: one more evaluation, element by element
+            single = [(f"cv_kept sc{si} {cidx(ci)} [({nw})%Z]", cl([lib.cbool(b)])) for nw, b in zip(nws, exp)]
+            try:
+                which = [nws[k] for k in lib.coq_compare(ctx, "c17gapk", GAP_IMPORTS, single, chunk=400, prelude=prelude)]
+            except RuntimeError:
+                which = []
+            ctx.fail("corr", "specification kept (Model/C17GapDefs.v) and the property-text reading disagree on the tag values "
+                     f"{[(nw >> 3, nw & 7) for nw in which][:12]} (number, wire type) of class {c.name}", cls=None,
+                     input=fail_input(schemas[si], si, ci, "kept", b"".join(enc_varint(nw) for nw in which[:4])))
+        else:
+            inp, kind, thm, got = extra
+            ctx.fail("corr", f"model parse and implementation disagree on the error kind of a {kind} input ({thm}); implementation: {got}",
+                     cls=None, input=inp, implementation=pairs[j][1])
+
+
+# --------------------------------------------------------------------------------------
 def run(ctx):
     source_tie_stage(ctx)
     rng = ctx.rng
@@ -901,7 +1282,10 @@ def run(ctx):
             ctx.notes.append(f"reference classes for schema {si} could not be built: {type(e).__name__}: {str(e)[:200]}")
     import time as _t
     t_impl = _t.time()
-    evs = evaluate_all(ctx, schemas, cases, refs)
+    import random as _random
+    grng = _random.Random(ctx.seed * 7919 + 17)          # the gap stage's own stream: the older stages draw what they drew before
+    auxs = [(grng.choice([0, 0, 0, 1, 2]), gen_rest(grng), gen_old(grng, schemas[cse[0]].classes[cse[1]])) for cse in cases]
+    evs = evaluate_all(ctx, schemas, cases, refs, auxs)
     t_impl = _t.time() - t_impl
     results = []
     agreement = {}
@@ -911,7 +1295,9 @@ def run(ctx):
         if ev["count"]:
             ctx.count(ev["count"])
         for cls_, what in ev["problems"]:
-            ctx.fail("oracle", what, cls=cls_, input=fail_input(schemas[si], si, ci, fault, bs))
+            ctx.fail("oracle", what, cls=cls_, input=fail_input(schemas[si], si, ci, fault, bs, auxs[len(results) - 1]))
+        for k_, n_ in ev.get("gc", {}).items():
+            ctx.count(k_, n_)
         if ev["nontrivial"]:
             ctx.seen_nontrivial((si, ci, bs))
         summary = ev["summary"]
@@ -974,6 +1360,14 @@ def run(ctx):
         ctx.fail("corr", "model (Decode.parse / well_typed / enc_obj) and implementation (parse / snapshot / bytes) disagree",
                  cls=None, input=fail_input(schemas[si], si, ci, fault, bs), implementation=pairs[j][1][:3000])
     ctx.cov["disagreements_checked"] = len(pairs)
+    # ---- gap stage: kept / unk_of / parse_into / load_delimited / error kinds evaluated in Coq on the same inputs
+    try:
+        t_gap = _t.time()
+        gap_stage(ctx, schemas, cases, evs, auxs, big_keys, prelude, grng)
+        ctx.notes.append(f"timing: gap stage {_t.time() - t_gap:.0f}s")
+    except RuntimeError as e:
+        ctx.fail("corr", "gap stage: the evaluation helpers (Model/C17GapCv.v) could not be evaluated: " + str(e)[:1500], cls=None,
+                 no_input=True, theorem_or_correspondence="Model/C17GapCv.v")
     # ---- side conditions of the theorems on the generated schemas (non-vacuity)
     side = [(f"cbool (wf_schema sc{i} && entries_agree sc{i})", lib.cbool(True)) for i in range(len(schemas))]
     badside = lib.coq_compare(ctx, "c17side", IMPORTS, side, chunk=8, prelude=prelude)
@@ -1029,7 +1423,12 @@ def replay(ctx, obj):
     print("independent reader:", spec_class(bs)[0], spec_class(bs)[1] if spec_class(bs)[0] == "invalid" else "")
     for how, (k, v) in zip(("parse", "FromString", "load"), run_impl(s, s.classes[ci], bs)):
         print(f"  {how}: {k}: {v!r:.400}")
-    ev = evaluate(s, ci, inp.get("fault", "replay"), bs, None)
+    ev = evaluate(s, ci, inp.get("fault", "replay"), bs, None, None, aux_from_spec(inp["aux"]) if inp.get("aux") else None)
+    if str(inp.get("fault", "")).startswith("tagfault:"):
+        want = EOFError if "tag-cut" in inp["fault"] else ValueError
+        for how, (k, v) in zip(("parse", "FromString", "load"), run_impl(s, s.classes[ci], bs)):
+            if k != "raise" or not isinstance(v, want) or (want is ValueError and isinstance(v, EOFError)):
+                ev["problems"].append(("tag-error-class", f"{how}: expected {want.__name__}, got {k}: {v!r:.200}"))
     for cls_, what in ev["problems"]:
         print("FAILS:", cls_, "-", what[:400])
         ctx.failures.append(cls_)
